@@ -100,6 +100,23 @@ def make_configs(r, n):
                     ['--strategy', st, '-j', str(j)],
                     {'strategy': st, 'jobs': j, 'n': f'H{st}',
                      'mutopts': []}))
+    # the specially configured instance of the first pass (binary reduction
+    # over the top-level assertions only): two non-adjacent assertions that
+    # can only go together, and only once another command is gone
+    cmds = ['(assert p1)', '(set-info :k1 v1)', '(assert p2)',
+            '(set-info :k2 v2)', '(assert p3)', '(set-info :k3 v3)',
+            '(assert p4)', '(echo junk)']
+    t0 = '\n'.join(cmds) + '\n'
+    t1 = '\n'.join(cmds[:-1]) + '\n'
+    t2 = '\n'.join(c for c in cmds[:-1]
+                   if c not in ('(assert p1)', '(assert p2)')) + '\n'
+    member = {'mode': 'member',
+              'members': [refreader.lex(t) for t in (t0, t1, t2)]}
+    for st, j in (('hierarchical', 1), ('hybrid', 2)):
+        out.append((t0, dict(member, delay_ms=1),
+                    ['--strategy', st, '-j', str(j)],
+                    {'strategy': st, 'jobs': j, 'n': f'B{st}',
+                     'mutopts': []}))
     for k, (text, spec, ms) in enumerate(DIRECTED):
         for st, j in (('hierarchical', 1), ('hybrid', 2)):
             out.append((text, dict(spec, delay_ms=1),
@@ -117,6 +134,11 @@ def enabled_mutators(mods, ns_flags):
             attr = 'mutator_' + opt.replace('-', '_')
             if ns_flags.get(attr, True):
                 res.append(getattr(module, cls)())
+                if cls == 'BinaryReduction':
+                    # the specially configured instance of the first pass
+                    inst = getattr(module, cls)()
+                    inst.ident = 'assert'
+                    res.append(inst)
     return res
 
 
@@ -192,7 +214,16 @@ def last_sweep_incomplete(mods, it):
         return None   # the file is not the last sweep's input (C01's business)
     mods['smtlib'].collect_information(exprs)
     byname = {type(m).__name__: m for m in P.all_mutators(mods)}
-    muts = [byname[n] for n in tail[0]['muts'] if n in byname]
+    # one instance per entry of the pass, configured like the one of the run
+    # (the first pass's binary reduction over assertions has ident='assert')
+    muts = []
+    attrs = tail[0].get('mattrs') or [{}] * len(tail[0]['muts'])
+    for n, at in zip(tail[0]['muts'], attrs):
+        if n in byname:
+            inst = type(byname[n])()
+            for k, v in at.items():
+                setattr(inst, k, v)
+            muts.append(inst)
     params = gen.get('params') or {}
     nodes, mu = mods['nodes'], mods['mutator_utils']
     want = []
@@ -283,9 +314,12 @@ def judge(rep, mods, items, second_runs):
 
 def second(items, n):
     """Run ddSMT again (hierarchical, same mutator options) on outputs."""
-    sel = [it for it in items
-           if it.run.status == 0 and it.run.out_text is not None
-           and it.hier is not None][:n]
+    ok = [it for it in items
+          if it.run.status == 0 and it.run.out_text is not None
+          and it.hier is not None]
+    # every directed configuration, and the first n of the others
+    sel = [it for it in ok if str(it.meta.get('n', ''))[:1] in 'BDH']
+    sel += [it for it in ok if it not in sel][:n]
     out = []
     base = common.subscratch('c02-second')
     from concurrent.futures import ThreadPoolExecutor
